@@ -98,8 +98,8 @@ type part struct {
 	Group int // -1: literal
 }
 
-func g(n int) part       { return part{Group: n} }
-func lit(s string) part  { return part{Lit: s, Group: -1} }
+func g(n int) part         { return part{Group: n} }
+func lit(s string) part    { return part{Lit: s, Group: -1} }
 func tpl(p ...part) []part { return p }
 
 // rareSyntax renders the template in rare's expression syntax. Literals are
@@ -224,7 +224,7 @@ func programs() []*Program {
 		{Name: "reduce-nogroup", Cmd: "reduce", Kind: "accum", Match: lineRegex,
 			Accs: []accSpec{{"total", "sum", 3, ""}, {"n", "count", 0, ""}, {"mx", "max", 3, "-1000"}}, Corpora: clean, HasCSV: true},
 		{Name: "reduce-ordered", Cmd: "reduce", Kind: "accum", Match: lineRegex, Groups: []int{2},
-			Accs: []accSpec{{"last", "last", 1, ""}, {"cat", "cat", 3, "="}}, OrderSensitive: true, Corpora: clean, HasCSV: true},
+			Accs: []accSpec{{"last", "last", 1, ""}, {"cat", "cat", 3, "^"}}, OrderSensitive: true, Corpora: clean, HasCSV: true},
 	}
 }
 
